@@ -369,6 +369,60 @@ def replay_protocol(hists):
     return res
 
 
+def replay_protocol_cap(hists):
+    """ProtocolCap: every history TLC enumerated, on KernelPCovR (fit_inverse_transform = the capability requested at a fit)."""
+    from skmatter.decomposition import KernelPCovR
+    rng = np.random.default_rng(29)
+    dims = {"A": (9, 4), "B": (7, 3)}
+    tr = {}
+    for d, (n, m) in dims.items():
+        X = rng.normal(size=(n, m)); X -= X.mean(0)
+        Y = rng.normal(size=(n, 2)); Y -= Y.mean(0)
+        tr[d] = (X, Y)
+    res = {"agree": 0, "disagree": []}
+    for hh in hists:
+        obj = KernelPCovR(mixing=0.5, n_components=2, kernel="linear")
+        fitted, trace, ok = None, [], True
+        for step in hh["hist"]:
+            got = "ok"
+            try:
+                with warnings.catch_warnings():
+                    warnings.simplefilter("ignore")
+                    if step["op"] == "fit":
+                        obj.set_params(fit_inverse_transform=bool(step["c"]))
+                        obj.fit(*tr[step["d"]])
+                        fitted = step["d"]
+                    elif step["op"] == "clone":
+                        from sklearn.base import clone
+                        obj = clone(obj)
+                        fitted = None
+                    elif step["op"] == "reload":
+                        import pickle
+                        obj = pickle.loads(pickle.dumps(obj))
+                    else:
+                        Xb = np.asarray(obj.inverse_transform(rng.normal(size=(5, 2))))
+                        # a reconstruction must live in the feature space of the data the estimator is fitted on NOW, and be the
+                        # one of THIS fit: T P_TX with the training data of the current fit
+                        T = obj.transform(tr[fitted][0])
+                        ref = T @ (np.linalg.pinv(T) @ tr[fitted][0])
+                        if Xb.shape != (5, dims[fitted][1]):
+                            got = "wrong-shape%s" % (Xb.shape,)
+                        elif not np.allclose(obj.inverse_transform(T), ref, atol=1e-8):
+                            got = "reconstruction-of-other-data"
+            except (ValueError, TypeError, AttributeError, IndexError, KeyError) as ex:
+                got = "rejected"
+            except Exception as ex:  # noqa
+                got = "error:" + type(ex).__name__
+            trace.append(got)
+            if got != step["out"]:
+                ok = False
+        if ok:
+            res["agree"] += 1
+        else:
+            res["disagree"].append({"history": [(s["op"], s["d"], s["c"], s["out"]) for s in hh["hist"]], "got": trace})
+    return res
+
+
 def run(tier):
     r = core.run_tlc("Validation.tla", cfg="mc/Validation.cfg", workers=1)
     if r["error"]:
@@ -403,6 +457,19 @@ def run(tier):
         if v[1]:
             first = [d for d in pr["disagree"] if d["class"] == k_][:1]
             print("  DISAGREE %s: %d histories%s" % (k_, v[1], (" e.g. %s -> %s" % (first[0]["history"], first[0]["got"])) if first else ""))
+    rc_ = core.run_tlc("ProtocolCap.tla", cfg="mc/ProtocolCap.cfg", workers=1)
+    if rc_["error"]:
+        raise core.Machinery("ProtocolCap model: " + str(rc_["error"]))
+    hc = [e for e in rc_["records"] if e.get("k") == "H"]
+    rcp = core.run_tlc("ProtocolCap.tla", cfg="mc/ProtocolCap_pinned.cfg", workers=1)
+    pc = replay_protocol_cap(hc)
+    out["optional_capability_protocol"] = {"histories": len(hc), "replays_agreeing": pc["agree"], "replays_disagreeing": len(pc["disagree"]),
+                                           "disagreements": pc["disagree"][:10],
+                                           "pinned_behaviour_in_the_model": "violates %s" % (rcp.get("violated") or rcp.get("error"))}
+    print("extras: optional capability (KernelPCovR.inverse_transform): %d histories: %d agree, %d disagree; model of the pinned behaviour: %s"
+          % (len(hc), pc["agree"], len(pc["disagree"]), out["optional_capability_protocol"]["pinned_behaviour_in_the_model"]))
+    for d_ in pc["disagree"][:3]:
+        print("  DISAGREE", d_["history"], "->", d_["got"])
     loc = {}
     for name, expect in (("gentle", None), ("steep", "NoExhaustion")) + ((("gentle_big", None),) if tier == "thorough" else ()):
         r3 = core.run_tlc("Localization.tla", cfg="mc/Localization_%s.cfg" % name, workers=core.NCPU, timeout=3600)
